@@ -5,12 +5,16 @@ from harness import core, pipe, pipecheck, pipeprops
 from harness.core import Failure, Result
 
 MANIFEST = dict(
-    pending="check runs (model lock-step + oracle) but its Coq theorems are still being proved; not claimed until coq/Props holds them",
     design_ref="DESIGN.md §6 C01",
     text="Executable Coq model of the whole pipeline (kernel inotify semantics, Inotify.read_events, InotifyBuffer over "
          "the proved delay-queue LTS, InotifyEmitter.queue_events) run in lock-step against the real observer on the real "
-         "kernel for every generated history; theorems in coq/Props/C01.v over the model; oracle = replay of the delivered "
-         "stream against os.walk.",
+         "kernel for every generated history. Theorems (coq/Props/C01.v): the replay function is the pointwise tree semantics "
+         "(C01_replay_semantics); every covered operation's delivered events turn the replayed tree into the tree after it "
+         "(C01_contract_replay, C01_replay_step); induction over histories of any length of paced covered operations, from "
+         "construct() and on the Pipeline model through delay queue and grouping (C01_sequential_partial, "
+         "C01_pipeline_from_start_partial). Not theorems (stated as C01_replay_full / C01_sequential_full, carried by the "
+         "lock-step correspondence + the replay oracle against os.walk): bursts and read cuts at arbitrary points, directory "
+         "move-in/out and directory-over-directory replay.",
     note="Trusted: Coq kernel; the kernel model is validated, not proved; reader/emitter steps are atomic w.r.t. file-system "
          "operations (gates at poll() and read_event()). See coq/Props/C01.v for exactly which part of the replay law is a "
          "theorem and which is carried by the sampled correspondence.",
